@@ -132,6 +132,28 @@ def rule_F(run: Run, prog: Program) -> int:
                             masks.append((x.value.id, a_st.value, a_ctx, a_st))
                     else:
                         masks.append((x.value.id, sl, ctx, st))
+        # names whose value derives from self (polygons = self; polygons = PolygonCollection.from_tensor(self[...]))
+        from_self = {selfn}
+        changed = True
+        while changed:
+            changed = False
+            for nm, lst in assigns.items():
+                if nm not in from_self and nm != other and any(any(isinstance(x, ast.Name) and x.id in from_self for x in ast.walk(a.value)) for a, _c in lst):
+                    from_self.add(nm)
+                    changed = True
+        from_self.discard(other)
+
+        def mentions_self(e: ast.AST) -> bool:
+            return any(isinstance(x, ast.Name) and x.id in from_self for x in ast.walk(e))
+
+        # a mask that is built up step by step (m = A; m = m & B; m &= C) is judged once, as the conjunction of all its steps
+        accumulated: dict[str, list[ast.AST]] = {}
+        for nm, lst in assigns.items():
+            if len(lst) > 1 and any(_mentions(a.value, nm) for a, _c in lst):
+                accumulated[nm] = [a.value for a, _c in lst]
+        for st0, _c0 in walk_ctx(fn.node.body):
+            if isinstance(st0, ast.AugAssign) and isinstance(st0.target, ast.Name) and isinstance(st0.op, ast.BitAnd):
+                accumulated.setdefault(st0.target.id, [a.value for a, _c in assigns.get(st0.target.id, [])]).append(st0.value)
         seen_masks = set()
         for var, mexpr, ctx, st in masks:
             key = id(mexpr)
@@ -140,14 +162,21 @@ def rule_F(run: Run, prog: Program) -> int:
             seen_masks.add(key)
             loc = f"{rel}:{st.lineno}"
             label = norm_stmt(st)
+            mask_name = st.targets[0].id if isinstance(st, ast.Assign) and len(st.targets) == 1 and isinstance(st.targets[0], ast.Name) else None
+            if mask_name in accumulated:
+                if ("acc", mask_name) in seen_masks:
+                    continue
+                seen_masks.add(("acc", mask_name))
+                mexpr = ast.BoolOp(op=ast.And(), values=list(accumulated[mask_name]))
+                label = f"{mask_name} = <conjunction of {len(accumulated[mask_name])} steps>"
             cc = _contains_calls(mexpr, var)
             if not isinstance(mexpr, (ast.BinOp, ast.Call, ast.UnaryOp, ast.BoolOp)):
                 run.add("E10.F1", fn.short, label, UNDECIDED, "filter expression is not a visible conjunction", loc)
                 continue
             helper_hidden = any(isinstance(x, ast.Call) and isinstance(x.func, ast.Name) and x.func.id not in ("cast",) for x in ast.walk(mexpr))
-            self_ok = any(_mentions(c.func.value, selfn) for c in cc)
-            need_other = any(_has_bounded_contains(prog, k) for k in narrowed_classes(prog, fn, ctx, other))
-            other_ok = any(_mentions(c.func.value, other) and not _mentions(c.func.value, selfn) for c in cc)
+            self_ok = any(mentions_self(c.func.value) for c in cc)
+            need_other = any(_has_bounded_contains(prog, k) for k in narrowed_classes(prog, fn, ctx, other)) and mask_name not in accumulated
+            other_ok = any(_mentions(c.func.value, other) and not mentions_self(c.func.value) for c in cc)
             if not self_ok:
                 if helper_hidden:
                     run.add("E10.F1", fn.short, label, UNDECIDED, "part of the filter is hidden in a helper call", loc)
